@@ -475,7 +475,7 @@ def run_native(contract, config, seed=0, model=None, tries=50, tol=1e-7, all_fai
             return 'crash', dict(error=''.join(traceback.format_exception(type(e), e, e.__traceback__)[-8:]),
                                  inputs=ctx.drawn, seed=seed * 7919 + k)
         if ctx.native_failures:
-            return 'failed', dict(failures=ctx.native_failures if all_failures else ctx.native_failures[:10], inputs=ctx.drawn, checked=ctx.native_checked,
+            return 'failed', dict(failures=ctx.native_failures if all_failures else ctx.native_failures[:200], inputs=ctx.drawn, checked=ctx.native_checked,
                                   seed=seed * 7919 + k)
         return 'held', dict(checked=ctx.native_checked, inputs=ctx.drawn, seed=seed * 7919 + k)
     return last or ('rejected', {})
